@@ -397,13 +397,27 @@ func verifModelBinaryWrite(w io.Writer, order binary.ByteOrder, data any) error 
 
 // ---- C11 (and C02): exclusive ownership of pooled scratch objects ----
 
+//@ func (*SegmentBase).visitStoredFields.visitor(field, typ, value, pos) returns (keepGoing)
+//@ trusted
+//@ requires !$visStopped
+//@ modifies *, ghost visCalls, ghost visStopped
+//@ ensures $visCalls == old($visCalls) + 1 && $visStopped == !keepGoing
+//@ end
+
 //@ func (*SegmentBase).visitStoredFields returns (err)
 //@ thin
 //@ tags [C02,C11]
 //@ requires s != nil && vdc != nil && poolOwned(vdc)
+//@ ghostinit $visStopped = false
 //@ ensures poolOwned(vdc) [C11]
 //@ ensures $poolBalance == old($poolBalance) [C11]
-//@ modifies *, ghost poolOwned[vdc], ghost poolBalance
+//@ ensures num >= old(s.numDocs) ==> $visCalls == old($visCalls) && err == nil [C02]
+//@ assert (*SegmentBase).visitStoredFields.visitor#1 : $field == "_id" && $typ == 116 && $pos == nil && $visCalls == old($visCalls) [C02]
+//@ assert (*SegmentBase).visitStoredFields.visitor#1 : base($value) == base(compressed) && off($value) == off(compressed) && len($value) == int(idFieldValLen) [C02]
+//@ assert (*SegmentBase).visitStoredFields.visitor#2 : base($value) == base(uncompressed) && off($value) == off(uncompressed) + int(offset) && len($value) == int(l) && (numap == 0 ==> $pos == nil) && (numap > 0 ==> len($pos) == int(numap)) [C02]
+//@ loop 1 invariant !keepGoing ==> $visStopped
+//@ loop 1 invariant keepGoing ==> !$visStopped
+//@ modifies *, ghost poolOwned[vdc], ghost poolBalance, ghost visCalls, ghost visStopped
 //@ end
 
 //@ func (*SegmentBase).VisitStoredFields returns (err)
@@ -418,7 +432,7 @@ func verifModelBinaryWrite(w io.Writer, order binary.ByteOrder, data any) error 
 //@ tags [C02,C11]
 //@ requires s != nil
 //@ ensures err == nil ==> $poolBalance == old($poolBalance) [C11]
-//@ ensures num >= s.numDocs ==> id == nil && err == nil [C02]
+//@ ensures num >= old(s.numDocs) ==> id == nil && err == nil [C02]
 //@ end
 
 // ---- C06: single-hit dictionary entries ----
